@@ -1,7 +1,7 @@
 (* Props/C02.v -- property C02: compiling expressions and statements preserves what the script
    does.  Statements only; proofs are [exact lemma]. *)
 From TV Require Import Base.I32 Base.F32 Model.Ops Model.Expr Model.Lower Model.LowerSem
-  Gen.OpTable Proofs.LowerSound Proofs.LowerGenTable Proofs.F32Laws.
+  Gen.OpTable Proofs.LowerSound Proofs.LowerGenTable Proofs.F32Laws Proofs.LowerJumps Proofs.LowerJumpsGen.
 Open Scope Z_scope.
 
 (* Stage A (closed): an assignment statement `v aop= e` whose right-hand side is any well-typed
@@ -21,6 +21,45 @@ Theorem C02_assign_lowering_correct :
   run_pure gen_optable libm lty code m = Ok m'.
 Proof. exact assign_lowering_correct_gen. Qed.
 
+(* Stage B (closed): conditional jumps `if/unless (cond) goto l @ t` whose condition is any nesting of
+   && || ! over comparisons and integer-valued jump-free expressions.  The emitted code (temporaries,
+   short-circuit jumps to generated skip labels, negated comparisons for `unless`, one- or two-part
+   compare+jump) leaves memory unchanged and leaves the statement by a jump to l exactly when the
+   source condition, as AstVm evaluates it, says so.  [nonan]: operands of comparisons are not NaN
+   (the property quantifies over non-NaN floats; `unless (a < b)` compiles to `a >= b`).
+   [run_fwd ... Exec m None]: forward-label semantics of one statement's code (Model/LowerSem.v). *)
+Theorem C02_cond_jump_correct :
+  forall libm avail auto_casts rty lty diff time mask fuel k e l jt s code s' m b,
+  (forall op t, sigil_of_unop op <> None -> avail (KUnOp op t) = false) ->
+  lower avail auto_casts rty lty time mask fuel (CCondNonCount k e l jt) s = Ok (code, s') ->
+  wt_cond rty lty (te s) e = true -> locals_below (g s) e = true -> label_ok l (g s) ->
+  nonan gen_optable libm rty lty diff (te s) m e -> fresh lty m (g s) ->
+  cond_s gen_optable libm rty lty diff (te s) m e = Ok b ->
+  run_fwd gen_optable libm lty code Exec m None =
+    Ok (if xorb b (is_unless k) then RJump l jt m else RFall m).
+Proof. exact cond_jump_correct_gen. Qed.
+
+(* Stage B (closed): `v = c ? x : y` with nested ternaries in the branches and conditions as above:
+   the emitted code (condition, both branches, the generated false/end labels) falls through with
+   memory exactly as the source assignment leaves it. *)
+Theorem C02_ternary_assign_correct :
+  forall libm avail auto_casts rty lty diff time mask fuel v e s code s' m m',
+  (forall op t, sigil_of_unop op <> None -> avail (KUnOp op t) = false) ->
+  lower avail auto_casts rty lty time mask fuel (CAssignOp v None e) s = Ok (code, s') ->
+  wt_tern rty lty (te s) e = true -> locals_below (g s) e = true -> var_below (g s) v ->
+  nonan_t gen_optable libm rty lty diff (te s) m e -> fresh lty m (g s) ->
+  assign_s gen_optable libm rty lty diff (te s) m v None e = Ok m' ->
+  run_fwd gen_optable libm lty code Exec m None = Ok (RFall m').
+Proof. exact ternary_assign_correct_gen. Qed.
+
+(* structure of all emitted code: generated labels carry the emitting call's gensym numbers, RegAlloc /
+   RegFree are balanced (skipping over the code leaves memory unchanged), local typing only grows *)
+Theorem C02_lowered_code_shape :
+  forall avail auto_casts rty lty time mask fuel c s code s',
+  lower avail auto_casts rty lty time mask fuel c s = Ok (code, s') ->
+  Proofs.LowerShape.okshape lty s s' code.
+Proof. exact Proofs.LowerShape.lower_shape. Qed.
+
 (* the law behind the fallback encoding of float negation, for every bit pattern (NaNs are one class) *)
 Theorem C02_fneg_is_mul_minus_one : forall x, fneg x = fmul F_NEG_ONE x.
 Proof. exact fneg_is_mul_minus_one. Qed.
@@ -32,6 +71,19 @@ Theorem C02_lowered_instrs_carry_stmt_time :
   lower avail auto_casts rty lty time mask fuel c s = Ok (code, s') ->
   Forall (at_time time mask) code.
 Proof. exact lower_times. Qed.
+
+(* The full property, for reference.  Not yet a theorem: counting jumps (`--v`), declarations, instruction
+   calls with complex arguments, difficulty switches inside expressions, ternaries nested inside
+   arithmetic, the composition of the per-statement results over a whole body (jumps between statements,
+   waits, the instruction log) and the composition with register allocation (Proofs/RegAllocSem.v,
+   regalloc_simulates).  Those parts are covered by the structural correspondence (model lowering =
+   implementation lowering) and by the AstVm before/after oracle on every run. *)
+Definition C02_full_statement : Prop :=
+  forall libm avail auto_casts rty lty time mask fuel (st : sstmt) s code s' m,
+  (forall op t, sigil_of_unop op <> None -> avail (KUnOp op t) = false) ->
+  lower_stmt avail auto_casts rty lty time mask fuel st s = Ok (code, s') ->
+  fresh lty m (g s) ->
+  exists r, run_fwd gen_optable libm lty code Exec m None = Ok r.
 
 (* non-vacuity: `REG[1010] = (REG[1011] + 1) * (REG[1011] - 2)` with only `=` and binop intrinsics *)
 Example C02_example :
